@@ -39,7 +39,11 @@ def eq_signature(lhs, rhs, pts):
     for env in pts:
         l = mexpr.evaluate(lhs, env, "casadi")
         r = mexpr.evaluate(rhs, env, "casadi")
-        vals.append(float(np.asarray(l, dtype=float) - np.asarray(r, dtype=float)))
+        try:
+            vals.append(float(np.asarray(l, dtype=float) - np.asarray(r, dtype=float)))
+        except (ValueError, TypeError):
+            # non-numeric operand (e.g. a string that ended up in an equation): still a signature
+            vals.append(float(sum(map(ord, repr((l, r)))) + 0.123))
     return tuple(vals)
 
 
